@@ -326,6 +326,16 @@ Theorem C14_gen_getLIDsBorders_refines : forall le len minMID maxMID a b,
 Proof. exact gen_getLIDsBorders_refines. Qed.
 Print Assumptions C14_gen_getLIDsBorders_refines.
 
+(* thm:C14_lid_borders_exact directly over the GENERATED getLIDsBorders, called with the fraction's own index *)
+Theorem C14_lid_borders_exact_gen : forall f qf qt,
+  ids_ok (f_ids f) -> desc_sorted (f_ids f) -> 0 <= qf < two64 -> 0 <= qt < two64 ->
+  (qf = 0 -> ~ In (0, 0) (f_ids f)) -> Z.of_nat (length (stub_id :: f_ids f)) < 4294967296 ->
+  exists lo hi,
+    go_processor_getLIDsBorders qf qt (zix (frac_le f) (Z.of_nat (length (stub_id :: f_ids f)))) = Val (u32 lo, u32 hi) /\
+    Model.slice (f_ids f) lo hi = filter (in_range qf qt) (f_ids f).
+Proof. exact lid_borders_exact_gen. Qed.
+Print Assumptions C14_lid_borders_exact_gen.
+
 Example C14_gen_borders_witness :
   let ix := mk_ix go_ID 5 (fun lid x => go_seq_LessOrEqual (mk_go_ID (nth (Z.to_nat lid) [0; 40; 30; 30; 10] 0) 7) x) in
   go_processor_getLIDsBorders 20 35 ix = Val (2, 3) /\ go_processor_getLIDsBorders 0 9 ix = Val (5, 4).
